@@ -1132,6 +1132,9 @@ package redis
 //@ func (*upstream).resetAllClients
 //@   prop C07
 //@   alsoprop C11 : no-panic
+//@   flag track-locks
+//@   callpre Stop @a-backend-connection-is-never-waited-for-under-the-client-table-lock !held(u.clientsMu)
+//@   alsoprop C02 C04 C09 : a-backend-connection-is-never-waited-for-under-the-client-table-lock
 //@   requires clientsok(u)
 //@   modifies all
 //@   established @ret newUpstream,(*upstream).updateClients upstream.clients @published clientsok(u)
